@@ -1,4 +1,5 @@
 import GeffProofs.Dataframe
+import Gen.ConvertCtcDf
 /-! # C17 — table export lists every node and edge with aligned property columns
 
 Property theorems only.  Model: `Geff.Dataframe.geffToDataframes` (`GeffModel/Dataframe.lean`), tied
@@ -125,6 +126,21 @@ theorem aligned_specCells (p : PropArr α) (n j : Nat) (hwf : p.WF n) :
       | false => rfl
       | true => exact absurd (hflag.2 hb) hf
     rw [hcell, this]; rfl
+
+/-! ## Tie to the source: literal tables regenerated by translator T8a -/
+
+/-- The literals `GeffModel/Dataframe.lean` hard-codes are the ones found in the current
+`_dataframe.py`: the id column names, the `name_i` separator, `mode = "w" if overwrite else "x"`,
+the two file suffixes and the order nodes-then-edges of the two `to_csv` calls. -/
+theorem gen_dataframe_tables_current :
+    Gen.ConvertCtcDf.translationOk = true ∧
+    Gen.ConvertCtcDf.dfIdCols = keys (nodeIdCols (⟨[], [], [], []⟩ : InMemGeff Nat)) ++
+      keys (edgeIdCols (⟨[], [], [], []⟩ : InMemGeff Nat)) ∧
+    subName "p" 3 = "p" ++ Gen.ConvertCtcDf.dfSubSep ++ "3" ∧
+    Gen.ConvertCtcDf.csvModes = ("w", "x") ∧
+    Gen.ConvertCtcDf.csvSuffixes = ["-nodes.csv", "-edges.csv"] ∧
+    Gen.ConvertCtcDf.csvWriteOrder = ["node_df", "edge_df"] := by
+  decide
 
 /-! ## Property theorems -/
 
